@@ -556,15 +556,18 @@ def special_configs():
 
 def thorough_configs(r):
     """Every (c, o, w) triple x {uint, int, bcd} x {le, be} (+ null for c == 8), plus the
-    other types on every triple where they exist (one byte order each, drawn per seed)."""
+    other types on every triple where they exist (one byte order per (c, w, type), drawn per
+    seed)."""
     out = list(quick_configs(r))
+    other_order = {}
     for c, o, w in triples():
         for order in ["le", "be"] + (["null"] if c == 8 else []):
             for ty in ("uint", "int", "bcd"):
                 out.append(Config(ty, w, c, o, order, "offset", pick_align(r, c, "offset")))
         for ty in types_for(w)[3:]:
-            order = r.choice(["le", "be"])
-            out.append(Config(ty, w, c, o, order, "offset", 1))
+            if (c, w, ty) not in other_order:
+                other_order[(c, w, ty)] = r.choice(["le", "be"])
+            out.append(Config(ty, w, c, o, other_order[(c, w, ty)], "offset", 1))
     return normalise_align([c for c in dict.fromkeys(out) if config_valid(c)], r)
 
 
